@@ -328,14 +328,26 @@ func (t *TClient) Exec(c *Ctx, op TOp) bool {
 		t.callSeq++
 		tag := fmt.Sprintf("c:%s:%d", t.Name, t.callSeq)
 		cr := &CallRec{Req: req, Tag: tag, Proc: op.URI}
-		for i := 0; i < op.Chunks; i++ {
-			o := wamp.Dict{"progress": i < op.Chunks-1}
+		chunks := op.Chunks
+		if t.Stalled {
+			// a client that is not reading cannot notice that its call was
+			// already answered, and would keep reusing the request id
+			chunks = 1
+		}
+		for i := 0; i < chunks; i++ {
+			o := wamp.Dict{"progress": i < chunks-1}
 			if !t.SendRec(&wamp.Call{Request: req, Options: o, Procedure: op.URI, Arguments: wamp.List{tag, i}}) {
 				return false
 			}
 			if i == 0 {
 				cr.SentSeq, cr.SentT = t.W.S.StepCount(), t.W.S.Elapsed()
 				t.Calls = append(t.Calls, cr)
+			}
+			// like a real client: once the call has been answered finally, no
+			// further chunk is sent under that request id
+			simrt.WaitQuiescent("chunk")
+			if t.hasFinal(req) {
+				break
 			}
 		}
 	case tCancel:
@@ -521,4 +533,20 @@ func opsSample(ops []TOp, c *Ctx, base int, max int) string {
 		parts = append(parts, op.String())
 	}
 	return strings.Join(parts, " ; ")
+}
+
+func (t *TClient) hasFinal(req wamp.ID) bool {
+	for _, r := range t.Inbox {
+		switch x := r.Msg.(type) {
+		case *wamp.Result:
+			if p, _ := x.Details["progress"].(bool); !p && x.Request == req {
+				return true
+			}
+		case *wamp.Error:
+			if x.Type == wamp.CALL && x.Request == req {
+				return true
+			}
+		}
+	}
+	return false
 }
